@@ -45,11 +45,12 @@ type c05fx struct {
 	vps      map[string]base.Voteproof
 	vpid     map[string]string // voteproof ID() -> menu id
 	proto    *Ballotbox
+	built    map[string]c05built
 }
 
 func c05newFx(n int, th base.Threshold) *c05fx {
 	fx := &c05fx{n: n, th: th, sfs: map[string]base.BallotSignFact{}, sfid: map[string]string{},
-		ops: map[string]base.SuffrageExpelOperation{}, vps: map[string]base.Voteproof{}, vpid: map[string]string{}}
+		built: map[string]c05built{}, ops: map[string]base.SuffrageExpelOperation{}, vps: map[string]base.Voteproof{}, vpid: map[string]string{}}
 	nodes := make([]base.Node, n)
 	for i := 0; i < n; i++ {
 		l := isaac.NewLocalNode(base.NewMPrivatekey(), base.NewStringAddress(fmt.Sprintf("no0%d", i)))
@@ -169,7 +170,7 @@ func (fx *c05fx) signFact(who string, p c05sp, variant string, sc bool, expelfac
 	if sc {
 		id += ":sc"
 	}
-	if tag != "" {
+	if tag != "" && tag != "vp" { // sign facts inside embedded voteproofs are the menu's own sign facts
 		id += ":" + tag
 	}
 	if sf, ok := fx.sfs[id]; ok {
@@ -323,7 +324,28 @@ func (v c05vote) id() string {
 	return s
 }
 
+type c05built struct {
+	sf base.BallotSignFact
+	bl base.Ballot
+}
+
+// build returns the (cached) sign fact and ballot of a menu vote. Every ballot satisfies the
+// precondition of Ballotbox.Vote in the node (launch/p_memberlist.go): Ballot.IsValid(networkID).
 func (fx *c05fx) build(v c05vote) (base.BallotSignFact, base.Ballot) {
+	if b, ok := fx.built[v.id()]; ok {
+		return b.sf, b.bl
+	}
+	sf, bl := fx.build0(v)
+	if bl != nil {
+		if err := bl.IsValid(c05net); err != nil {
+			panic(fmt.Sprintf("fixture ballot %s invalid: %v", v.id(), err))
+		}
+	}
+	fx.built[v.id()] = c05built{sf: sf, bl: bl}
+	return sf, bl
+}
+
+func (fx *c05fx) build0(v c05vote) (base.BallotSignFact, base.Ballot) {
 	var ops []base.SuffrageExpelOperation
 	for _, e := range v.expels {
 		target, signers, _ := strings.Cut(e, "/")
